@@ -258,6 +258,30 @@ def run(tier, seed, rng):
         if got != want or o.get('end') != end:
             failures.append(dict(kind='oracle', sig='recursive-sequence', what=f"a repeated field whose elements are packets of its own class: the tree must parse as {want} and end at {end}; observed {got}, end {o.get('end')}",
                                  classes=tsrc, cls=cls, raw=raw.hex(), offset=0, observed=o))
+    # ---- a when-condition given as a FIELD that is itself optional (chained optionals): absent (None), present but empty / zero,
+    # present and non-empty -- only the last is true
+    def _ch(sfx, conf):
+        return (f"class Chained{sfx}(Packet):\n{conf}    has = Int(1)\n    msg = Data(until_marker=b'\\0').when(has)\n    author = Data(until_marker=b'\\0').when(msg)\n    tail = Int(1)\n"
+                f"class ChInts{sfx}(Packet):\n{conf}    flag = Int(1)\n    extra0 = Int(1).when(flag)\n    extra = Int(1).when(extra0)\n    items = Int(1).repeated(2, when=extra0)\n    t = Int(1)\n"
+                f"class ChSeq{sfx}(Packet):\n{conf}    n = Int(1)\n    xs = Int(1).repeated(n)\n    more = Int(1).when(xs)\n    t = Int(1)\n")
+    chsrc = _ch('', '') + _ch('L', "    __bisturi__ = {'generate_for_pack': False, 'generate_for_unpack': False}\n")
+    chcases, chwant = [], []
+    for sfx in ('', 'L'):
+        for cls, raw, want, end in (('Chained', b'\x00joe\x00\x07', dict(has=0, msg=None, author=None, tail=0x6a), 2),
+                                    ('Chained', b'\x01\x00joe\x00\x07', dict(has=1, msg={'x': ''}, author=None, tail=0x6a), 3),
+                                    ('Chained', b'\x01hi\x00joe\x00\x07', dict(has=1, msg={'x': '6869'}, author={'x': '6a6f65'}, tail=7), 9),
+                                    ('ChInts', bytes([0, 7, 8, 9]), dict(flag=0, extra0=None, extra=None, items=[], t=7), 2),
+                                    ('ChInts', bytes([1, 0, 7, 8, 9]), dict(flag=1, extra0=0, extra=None, items=[], t=7), 3),
+                                    ('ChInts', bytes([1, 5, 7, 8, 9, 4]), dict(flag=1, extra0=5, extra=7, items=[8, 9], t=4), 6),
+                                    ('ChSeq', bytes([0, 7, 8]), dict(n=0, xs=[], more=None, t=7), 2),
+                                    ('ChSeq', bytes([2, 0, 0, 7, 8]), dict(n=2, xs=[0, 0], more=7, t=8), 5)):
+            chcases.append(dict(cls=cls + sfx, op='roundtrip', raw=raw.hex(), offset=0)); chwant.append((want, end))
+    chres = run_impl(os.path.join(VERIF, 'harness', 'impl_pkt.py'), dict(header=decl.HEADER_PY, blocks=[dict(name='chained', src=chsrc)], modname='c08c', cases=chcases))
+    for c, o, (w, end) in zip(chcases, chres['outcomes'], chwant):
+        got = dict(o['ok']['f']) if 'ok' in o else None
+        if got != w or o.get('end') != end or (o.get('packed') or {}).get('ok') != c['raw'][:2 * end]:
+            failures.append(dict(kind='oracle', sig='chained-optional', what=f"a when-condition that is an optional field (absent / empty / zero counts as false): expected {w}, end {end}, the same bytes back; observed {str(o)[:250]}",
+                                 classes=chsrc, cls=c['cls'], raw=c['raw'], offset=0, observed=o))
     # ---- a count that evaluates BELOW ZERO (signed field, header arithmetic, callable), no when-condition: exactly max(count, 0) = 0
     # elements, nothing consumed, parsing goes on
     nsrc = ("class NField(Packet):\n    n = Int(1, signed=True)\n    xs = Int(1).repeated(count=n)\n    t = Int(1)\n"
